@@ -278,5 +278,5 @@ def walk_contract(ck, ld):
             if got != want or got_calls != want_calls or not okw:
                 bad.append((tname, kw if not window else {k: v for k, v in kw.items() if k not in ("starttime", "endtime")}, got if got != want else "calls %s" % (got_calls,), want if got != want else want_calls))
     ck.enumerations.append(("walk.channels_properties_and_order", n, len(bad), bad[:2]))
-    ck.struct("walk.channels_properties_and_order", not bad, "ilsdrf deviates from the listing contract in %d of %d cases, e.g. %s" % (len(bad), n, bad[:2]), {"no_input": False})
+    ck.struct("walk.channels_properties_and_order", not bad, "ilsdrf deviates from the listing contract in %d of %d cases, e.g. %s" % (len(bad), n, bad[:2]), {})
     ck.add_function(pyload.source_info(ld, "ilsdrf"))
